@@ -1451,9 +1451,22 @@ class PlacementFeasibilityTracker:
     def __init__(self):
         self.recorder = dict()
 
+    @staticmethod
+    def _shape(app):
+        """App shape extended with everything else placement depends on: the
+        app's own traits and which level each affinity limit applies to.
+        """
+        constraints, demand = app.shape()
+        limits = tuple(sorted(
+            (str(level), limit)
+            for level, limit in six.iteritems(app.affinity.limits)
+            if limit != float('inf')
+        ))
+        return (constraints, app.traits, limits), demand
+
     def feasible(self, app):
         """Checks if it is feasible to satisfy demand."""
-        constraints, demand = app.shape()
+        constraints, demand = self._shape(app)
         if constraints in self.recorder:
             # If demand is >= than recorded failure, placement is not feasible.
             if _all_ge(demand, self.recorder[constraints]):
@@ -1463,7 +1476,7 @@ class PlacementFeasibilityTracker:
 
     def adjust(self, app):
         """Adjust info about failed placement."""
-        constraints, demand = app.shape()
+        constraints, demand = self._shape(app)
         if constraints not in self.recorder:
             self.recorder[constraints] = demand
         else:
